@@ -77,7 +77,8 @@ Definition check_encrypt (p : enc_params) (msg : bytes) (o : outcome) (c : prim_
       if asym_ok then outcome_eqb o ODone && asym_matches key ap c
       else outcome_eqb o OCrash
   | Ok (CSym sp) =>
-      if lib_sym_ok false sp (zlen msg) then
+      match lib_sym_stage false sp (zlen msg) with
+      | LOk =>
         match c with
         | PCipher cc =>
             outcome_eqb o ODone && call_matches false sp msg cc iv_ret && cc_fin_ok cc &&
@@ -85,7 +86,9 @@ Definition check_encrypt (p : enc_params) (msg : bytes) (o : outcome) (c : prim_
             oZ_eqb taglen (match p_mode sp with MGCM _ _ mt => Some (Zmin16 mt) | _ => None end)
         | _ => false
         end
-      else outcome_eqb o OCrash
+      | LErr e => outcome_eqb o (OErr e)
+      | LCrash => outcome_eqb o OCrash
+      end
   end.
 
 (* decrypt: parameters, ciphertext, observed outcome, call, returned plaintext *)
@@ -96,7 +99,8 @@ Definition check_decrypt (p : enc_params) (ct : bytes) (o : outcome) (c : prim_c
       if asym_ok then outcome_eqb o ODone && asym_matches key ap c
       else outcome_eqb o OCrash
   | Ok (CSym sp) =>
-      if lib_sym_ok true sp (zlen ct) then
+      match lib_sym_stage true sp (zlen ct) with
+      | LOk =>
         match c with
         | PCipher cc =>
             call_matches true sp ct cc None &&
@@ -107,13 +111,15 @@ Definition check_decrypt (p : enc_params) (ct : bytes) (o : outcome) (c : prim_c
               | PScheme s =>
                   match unpad s (p_block sp) (cc_out cc) with
                   | Some m => outcome_eqb o ODone && bytes_eqb out m
-                  | None => outcome_eqb o OCrash
+                  | None => outcome_eqb o (OErr CryptographicFailure)     (* padding could not be removed *)
                   end
               end
-            else outcome_eqb o OCrash          (* InvalidTag *)
+            else outcome_eqb o (OErr CryptographicFailure)          (* InvalidTag *)
         | _ => false
         end
-      else outcome_eqb o OCrash
+      | LErr e => outcome_eqb o (OErr e)
+      | LCrash => outcome_eqb o OCrash
+      end
   end.
 
 (* sign / verify *)
@@ -173,16 +179,21 @@ Definition check_derive (p : der_params) (o : outcome) (c : prim_call) (outlen :
   match derive_plan p with
   | Err e => outcome_eqb o (OErr e)
   | Ok dp =>
-      let ok := match dp with DEncrypt (CAsym _ _) => asym_ok && is_some (d_data p)
-                         | _ => lib_der_ok dp (olen (d_data p)) (is_some (d_data p)) end in
-      if ok then
-        outcome_eqb o ODone && der_call_matches dp (d_data p) c &&
-        match dp with
-        | DEncrypt (CAsym _ _) => true
-        | DEncrypt (CSym sp) => match c with PCipher cc => outlen =? zlen (cc_data cc) | _ => false end
-        | _ => outlen =? der_out_len dp 0
-        end
-      else outcome_eqb o OCrash
+      match dp with
+      | DEncrypt (CAsym _ _) =>
+          if asym_ok then outcome_eqb o ODone && der_call_matches dp (d_data p) c else outcome_eqb o OCrash
+      | _ =>
+          match lib_der_stage dp (olen (d_data p)) with
+          | LOk => outcome_eqb o ODone && der_call_matches dp (d_data p) c &&
+                   match dp, c with
+                   | DEncrypt _, PCipher cc => outlen =? zlen (cc_data cc)
+                   | DEncrypt _, _ => false
+                   | _, _ => outlen =? der_out_len dp 0
+                   end
+          | LErr e => outcome_eqb o (OErr e)       (* KDF refusal: 'The key derivation parameters are not valid' *)
+          | LCrash => outcome_eqb o OCrash
+          end
+      end
   end.
 
 (* handler: requested byte length, primitive output length, final outcome and stored length *)
